@@ -350,6 +350,16 @@ def check_log_ctor(kind: int, mc: int, res: int) -> bool:
     return True
 
 
+def check_twin_cap_reachable(value: int) -> bool:
+    """
+    pre: 0 <= value <= 2**40
+    post: _ == True
+    """
+    sk = mk(0)
+    clear_calls()
+    sk.add(b"ab", value)
+    return scalars(calls()[0][1])[-1] == value      # false claim ("never capped"): refuted for value > 2^32-1
+
 # ---------------------------------------------------------------------------------------------- real-library replays
 def real_log_ctor(kind, mc, res):
     try:
